@@ -199,16 +199,22 @@ ExpPP(st, t, k) ==
          [] k = "PP_ID_ONLY" -> Closes({QDF})
          [] OTHER -> {Ev} \cup Closes({ME, QDF})
 
+(* Shapes that leave a frame incomplete: harmless while the stream stays open; when
+   the concretisation also carries the FIN the stream ends in the middle of a frame,
+   which is H3_FRAME_ERROR since the repair 91a942d (property C14). *)
+ReqCut == {"UNKNOWN_LEN_HUGE", "WT_TRUNC", "TRUNC_TYPE", "TRUNC_LEN", "DATA_PARTIAL", "DATA_LEN_HUGE"}
+
 ExpReq(st, t, k) ==
   LET ph == TargetPhase(st, t)  h == ReqH(ph)  p == ReqP(ph) IN
   CASE p \in {"blocked", "wt"} -> {Ev}                   \* buffered / passed through
     [] p \in {"mid", "data"} -> AnyLegal                      \* continues a partial frame
-    [] k \in ReqPassive -> {Ev}
+    [] k \in ReqPassive -> IF k \in ReqCut THEN {Ev} \cup Closes({FE}) ELSE {Ev}
     [] k = "RANDOM" -> AnyLegal
     [] k \in PPShapes -> ExpPP(st, t, k)
     [] k \in ReqForbidden -> Closes({FU})
     [] h = "trl" -> Closes({FU})                         \* nothing but passive input after trailers
-    [] k \in DataShapes -> IF h = "hdrs" THEN {Ev} ELSE Closes({FU})
+    [] k \in DataShapes -> IF h # "hdrs" THEN Closes({FU})
+                            ELSE IF k \in ReqCut THEN {Ev} \cup Closes({FE}) ELSE {Ev}
     [] k \in {"HEADERS_VALID", "HEADERS_VALID_FIN"} -> IF h = "init" THEN {Ev} ELSE Closes({ME})
     [] k = "TRAILERS_VALID" -> IF h = "hdrs" THEN {Ev} ELSE Closes({ME})
     [] k = "VALUE_NONUTF8" -> IF h = "init" THEN {Ev} ELSE Closes({ME})
